@@ -751,4 +751,127 @@ theorem getPages_alloc_witness (memMax : Nat) (h : memMax < 2 ^ 40 * 12) :
   have : max 4 (satAdd1 (2 ^ 40)) = 2 ^ 40 + 1 := by decide
   rw [this, if_neg (by decide), if_pos (by omega)]
 
+/-! ### instantiation of `runCap_partial` for concrete documents -/
+
+/-- the arrays the iterator can ever hold: some node's `Kids` -/
+def IsKidsArr (os : Objects) (A : List Obj) : Prop := ∃ id, kidsOf os id = some A
+
+/-- every list the iterator holds is a suffix of some `Kids` array; the stack respects the depth limit -/
+def SuffInv (os : Objects) (k : Option (List Obj)) (stk : List (List Obj)) : Prop :=
+  (∀ l, k = some l → ∃ A, IsKidsArr os A ∧ l <:+ A) ∧
+  (∀ l ∈ stk, ∃ A, IsKidsArr os A ∧ l <:+ A) ∧ stk.length ≤ PAGE_TREE_DEPTH_LIMIT
+
+theorem classify_pages (os : Objects) (kid : Obj) (ks : Option (List Obj)) (h : classify os kid = .pages ks) :
+    ∃ id, ks = kidsOf os id := by
+  unfold classify at h
+  split at h
+  · cases h
+  · rename_i id _
+    split at h
+    · cases h
+    · split at h
+      · cases h
+      · split at h
+        · cases h; exact ⟨id, rfl⟩
+        · cases h
+
+theorem suffInv_iterInv (os : Objects) : IterInv (classify os) (SuffInv os) where
+  skip := by
+    intro kid rest stk ⟨h1, h2, h3⟩
+    refine ⟨?_, h2, h3⟩
+    intro l hl; cases hl
+    obtain ⟨A, hA, hs⟩ := h1 _ rfl
+    exact ⟨A, hA, (List.suffix_cons kid rest).trans hs⟩
+  down := by
+    intro kid rest stk ks ⟨h1, h2, h3⟩ hc hd
+    obtain ⟨id, hid⟩ := classify_pages os kid ks hc
+    refine ⟨?_, ?_, ?_⟩
+    · intro l hl; exact ⟨l, ⟨id, by rw [← hid, hl]⟩, List.suffix_refl l⟩
+    · intro l hl
+      split at hl
+      · exact h2 l hl
+      · rcases List.mem_cons.mp hl with rfl | hl
+        · obtain ⟨A, hA, hs⟩ := h1 _ rfl
+          exact ⟨A, hA, (List.suffix_cons kid l).trans hs⟩
+        · exact h2 l hl
+    · split
+      · exact h3
+      · simp only [List.length_cons]; omega
+  popS := by
+    intro top st ⟨_, h2, h3⟩
+    refine ⟨?_, fun l hl => h2 l (List.mem_cons_of_mem _ hl), by simp only [List.length_cons] at h3; omega⟩
+    intro l hl; cases hl; exact h2 _ List.mem_cons_self
+  popN := by
+    intro top st ⟨_, h2, h3⟩
+    refine ⟨?_, fun l hl => h2 l (List.mem_cons_of_mem _ hl), by simp only [List.length_cons] at h3; omega⟩
+    intro l hl; cases hl; exact h2 _ List.mem_cons_self
+
+theorem sum_map_suffix_le (f : Obj → Nat) (l A : List Obj) (h : l <:+ A) : (l.map f).sum ≤ (A.map f).sum := by
+  obtain ⟨t, rfl⟩ := h
+  simp [List.map_append, List.sum_append]
+
+theorem sum_flatten_le (f : Obj → Nat) (B : Nat) : ∀ (stk : List (List Obj)),
+    (∀ l ∈ stk, (l.map f).sum ≤ B) → ((stk.flatten).map f).sum ≤ stk.length * B := by
+  intro stk
+  induction stk with
+  | nil => intro _; simp
+  | cons a rest ih =>
+    intro h
+    have h1 := h a List.mem_cons_self
+    have h2 := ih (fun l hl => h l (List.mem_cons_of_mem _ hl))
+    simp only [List.flatten_cons, List.map_append, List.sum_append, List.length_cons]
+    have : (rest.length + 1) * B = rest.length * B + B := by rw [Nat.add_mul]; simp
+    omega
+
+/-- on the states the iterator can reach, `size_hint` is at most (depth limit + 1) × the largest
+summed `Count` hint of a single `Kids` array -/
+theorem sizeHint_le_of_suffInv (os : Objects) (B0 : Nat)
+    (hB : ∀ A, IsKidsArr os A → (A.map (kidCount os)).sum ≤ B0)
+    (k : Option (List Obj)) (stk : List (List Obj)) (h : SuffInv os k stk) :
+    sizeHintRaw os k stk ≤ (PAGE_TREE_DEPTH_LIMIT + 1) * B0 := by
+  obtain ⟨h1, h2, h3⟩ := h
+  unfold sizeHintRaw
+  simp only [List.map_append, List.sum_append]
+  have hk : ((k.getD []).map (kidCount os)).sum ≤ B0 := by
+    cases k with
+    | none => simp
+    | some l =>
+      obtain ⟨A, hA, hs⟩ := h1 l rfl
+      exact Nat.le_trans (sum_map_suffix_le _ _ _ hs) (hB A hA)
+  have hs := sum_flatten_le (kidCount os) B0 stk (by
+    intro l hl
+    obtain ⟨A, hA, hs⟩ := h2 l hl
+    exact Nat.le_trans (sum_map_suffix_le _ _ _ hs) (hB A hA))
+  have : stk.length * B0 ≤ PAGE_TREE_DEPTH_LIMIT * B0 := Nat.mul_le_mul_right _ h3
+  have e : (PAGE_TREE_DEPTH_LIMIT + 1) * B0 = PAGE_TREE_DEPTH_LIMIT * B0 + B0 := by rw [Nat.add_mul]; simp
+  omega
+
+/-- **C13 for `get_pages`, partial, concrete documents**: if in every `Kids` array of the document
+the `Count` hints (1 per page / foreign kid, `max(0, Count)` per `Pages` kid) sum to at most `B0`, and
+`(2·|objects| + 257·B0 + 4)·12` bytes are available (≤ isize::MAX), then `get_pages` returns — for
+documents of every size and shape, cyclic or not. -/
+theorem getPages_partial (memMax : Nat) (trailer : Dict) (os : Objects) (B0 : Nat)
+    (hB : ∀ A, IsKidsArr os A → (A.map (kidCount os)).sum ≤ B0)
+    (hmem : (2 * os.length + (PAGE_TREE_DEPTH_LIMIT + 1) * B0 + 4) * 12 ≤ memMax) (hM : memMax ≤ ISIZE_MAX)
+    (s : String) : getPages memMax trailer os ≠ .panic s := by
+  unfold getPages collectPages
+  split
+  · rename_i pid _
+    refine runCap_partial (classify os) (sizeHintRaw os) 12 memMax ((PAGE_TREE_DEPTH_LIMIT + 1) * B0) os.length
+      (SuffInv os) (suffInv_iterInv os) (sizeHint_le_of_suffInv os B0 hB) hmem hM (by decide)
+      (kidsOf os pid) [] os.length 0 0 ?_ (by omega) (by omega) s
+    refine ⟨?_, by simp, by simp⟩
+    intro l hl; exact ⟨l, ⟨pid, hl⟩, List.suffix_refl l⟩
+  · simp
+
+/-- non-vacuity: a one-node tree with a dangling kid meets the guard with `B0 = 1` -/
+example : ∀ A, IsKidsArr [((2, 0), .dict [(KIDS, .arr [.ref 3 0])])] A →
+    (A.map (kidCount [((2, 0), .dict [(KIDS, .arr [.ref 3 0])])])).sum ≤ 1 := by
+  intro A ⟨id, h⟩
+  by_cases hid : ((2, 0) : ObjId) = id
+  · subst hid
+    have : kidsOf [((2, 0), .dict [(KIDS, .arr [.ref 3 0])])] (2, 0) = some [.ref 3 0] := by rfl
+    rw [this] at h; cases h; decide
+  · simp [kidsOf, getDictionary, getObject, Objects.get, hid] at h
+
 end Lopdf
